@@ -1,5 +1,6 @@
 import I18n.Model.FmtCheck
 import I18n.Model.FmtCheckGen
+import I18n.Model.FmtMsgGen
 import I18n.Driver.Util
 /- Driver for the message-format argument checks (C14).
 
@@ -123,6 +124,17 @@ def handle (op : String) (args : List String) : String :=
     let fl : Flags := ⟨fuzzy == "1", rmin.toNat!, if rmax == "inf" then none else some rmax.toNat!⟩
     let formats := parseFormats true (.safe (Driver.unhexChars pfx)) (.safe (Driver.unhexChars repr)) nfmt.toNat! rest
     showResult (Gen.checkFormats ctx fl formats)
+  -- `mrun` / `mruns`: check_message itself REGENERATED from lib/check/msgformat/__init__.py (Generated.FmtMsg) over the regenerated check_args
+  | "mrun", tmpl :: enc :: pre :: fuzzy :: rmin :: rmax :: pfx :: repr :: nfmt :: rest =>
+    let ctx : Ctx := ⟨tmpl == "1", enc == "1", parsePre (tmpl == "1") pre⟩
+    let fl : Flags := ⟨fuzzy == "1", rmin.toNat!, if rmax == "inf" then none else some rmax.toNat!⟩
+    let formats := parseFormats false (.safe (Driver.unhexChars pfx)) (.safe (Driver.unhexChars repr)) nfmt.toNat! rest
+    showResult (GenMsg.checkFormats ctx fl formats)
+  | "mruns", tmpl :: enc :: pre :: fuzzy :: rmin :: rmax :: pfx :: repr :: nfmt :: rest =>
+    let ctx : Ctx := ⟨tmpl == "1", enc == "1", parsePre (tmpl == "1") pre⟩
+    let fl : Flags := ⟨fuzzy == "1", rmin.toNat!, if rmax == "inf" then none else some rmax.toNat!⟩
+    let formats := parseFormats true (.safe (Driver.unhexChars pfx)) (.safe (Driver.unhexChars repr)) nfmt.toNat! rest
+    showResult (GenMsg.checkFormats ctx fl formats)
   | "glastint", [h, n] =>
     match cParse (Driver.unhexChars h) with
     | .ok f =>
